@@ -93,7 +93,7 @@ CLAIMS["C19"] = dict(
     design="§5 C19")
 CLAIMS["C09"] = dict(
     text="Unbounded Lean soundness theorem no_undefined_read on a core statement language with the generate stage's name discipline (persistent environments: definitions visible to later statements of their block only) against the dynamic semantics of the emitted Python (function-level binding, every branch choice and iteration count): a block accepted in an environment whose names are bound never reaches a read of an unbound name, for all programs, nestings and execution paths; plus undefined_read_rejected, branch_defs_do_not_escape, shadow_latest. "
-         "Attributes in constructors: theorem constructor_assigns_every_attribute on a model of the unassigned-attribute analysis (assignment, if with and without else, loops, match with and without a catch-all arm, handle arms, bare return): an accepted constructor body has assigned to every attribute declared without a value when it ends, on every path (every stream of choices), with witnesses that each rule is needed; conversely (constructor_rejection_is_justified, constructor_analysis_exact) a body without return is rejected only if some path leaves an attribute unassigned, so acceptance is exactly 'every path assigns every attribute'; tied to the code by a verdict correspondence on generated constructor bodies. "
+         "Attributes in constructors: theorem constructor_assigns_every_attribute on a model of the unassigned-attribute analysis (assignment, if with and without else, loops, match with and without a catch-all arm, handle arms, bare return): an accepted constructor body has assigned to every attribute declared without a value when it ends, on every path (every stream of choices), with witnesses that each rule is needed; conversely (constructor_rejection_is_justified, constructor_analysis_exact) a body is rejected only if some path ends, by falling through or by return, with an attribute unassigned, so acceptance is exactly 'every path assigns every attribute'; tied to the code by a verdict correspondence on generated constructor bodies. "
          "The static model is tied to the code by a verdict-class correspondence on generated programs (functions, nested if/while/for, handle, shadowing) and single-point mutants inserting uses of arbitrary names at arbitrary positions, the model supplying the expected verdict.",
     note="Modelled: variables, parameters, loop variables, handler binders, blocks. Not modelled (DESIGN.md, known findings): top-level functions/classes used before their definition, class-level fields read as bare names in methods, reassignment of a global inside a function. Inference failures of the checker on accepted-by-model programs are counted as inconclusive, not as agreement.",
     technique="Lean 4 soundness proof (static discipline vs operational semantics) + verdict-class correspondence",
